@@ -136,161 +136,3 @@ Final == (s.l = Len(Rec) + 1) =>
 \* the whole trace was consumed
 Consumed == TLCGet("stats").diameter - 1 = Len(Rec)
 =============================================================================
-
-
----------------------------------------------------------------------------
-\* transports addressed directly (C06, C07, C20)
-Flatten2(px) == LET n == Len(px) IN IF n = 0 THEN <<>> ELSE
-                LET m == Len(px[1]) IN [i \in 1 .. n * m |-> px[((i - 1) \div m) + 1][((i - 1) % m) + 1]]
-First16(q) == IF Len(q) <= 16 THEN q ELSE SubSeq(q, 1, 16)
-
-JudgeXport(sc, w0, w1, r) ==
-  LET cfg == sc.cfg  n == r.name  a == r.args  c == w1.ctl  cm == w1.cmds
-      P == IF cfg.iface = "spi" THEN {"C06"} ELSE {"C07"}
-      isSpi == cfg.iface = "spi"
-      cnt == IF n = "xport.send_repeated_pixel" THEN a.count[1] * 65536 + a.count[2] ELSE 0
-      expWords == CASE n = "xport.send_pixels" -> Flatten2(a.px)
-                    [] n = "xport.send_repeated_pixel" -> RepWords(a.pixel, cnt)
-                    [] OTHER -> <<>>
-      nb == Len(expWords)
-      usable == IF isSpi /\ n # "xport.send_command" /\ n # "xport.write_raw" THEN (cfg.buf \div a.n) * a.n ELSE 1
-      noCmd == \A i \in 1 .. Len(cm) : cm[i].op = -1
-      lastWord == IF nb > 0 THEN expWords[nb]
-                  ELSE IF n \in {"xport.send_command", "xport.write_raw"} THEN
-                       (IF Len(a.params) > 0 THEN a.params[Len(a.params)] ELSE a.op)
-                  ELSE -1
-  IN
-  Chk(r.res = "ok", r, P, "transport call did not return Ok: " \o r.res \o " " \o r.pmsg \o " " \o r.ploc)
-  \o (IF r.res # "ok" THEN <<>> ELSE
-  (CASE n \in {"xport.send_command", "xport.write_raw"} ->
-         Chk(Len(cm) = 1 /\ cm[1].op = a.op /\ cm[1].n = Len(a.params) /\ cm[1].p = First16(a.params), r, P,
-             "command: the words on the bus are not exactly the instruction (D/C low) followed by the parameters (D/C high)")
-      \o Chk(a.op = 44 \/ c.rm \/ c.par = a.params, r, P, "parameter bytes differ from the ones given")
-      \o Chk(a.op # 44 \/ c.burst = a.params, r, P, "parameter bytes differ from the ones given")
-    [] OTHER ->
-         Chk(noCmd, r, P, "a command byte (D/C low) appeared inside pixel data")
-      \o Chk(c.burst = w0.ctl.burst \o expWords, r, P, "the data words on the bus are not exactly the pixel words, in order"))
-  \o Chk(w1.wflags \cap {"dc_unknown", "sampled_unknown", "command_gt_255", "repeated_command_strobe"} = {}, r, P,
-         "undriven or misused line: " \o ToString(w1.wflags))
-  \o Chk(~isSpi \/ w1.ntx <= nb + Len(cm) + 16, r, {"C06"}, "unbounded number of bus transactions")
-  \o Chk(~isSpi \/ n \in {"xport.send_command", "xport.write_raw"} \/ w1.ntx <= (nb \div usable) + 1, r, {"C20"},
-         "an SPI burst used more transactions than floor(b/usable)+1")
-  \o Chk(isSpi \/ lastWord < 0 \/ (BusWord(w1) = lastWord /\ ~BusUnknown(w1)), r, {"C07"},
-         "the data pins do not show the last word written"))
-
-JudgeBus(sc, w0, w1, r) ==
-  IF r.res = "ok" THEN
-     Chk(BusWord(w1) = r.args.v /\ ~BusUnknown(w1), r, {"C07"}, "after a successful set_value the data pins do not show the value")
-  ELSE Chk(r.res = "err" /\ FirstFailed(r.ops) > 0, r, {"C07"}, "set_value failed without a failing pin: " \o r.res \o " " \o r.pmsg)
-       \o Chk(w1.after = 0, r, {"C07", "C12"}, "pin operations were issued after the failure")
-
----------------------------------------------------------------------------
-Step(r) ==
-  IF r.k = "scn" THEN
-     [s EXCEPT !.l = @ + 1, !.sc = r,
-               !.w = WireNew(Max2(r.cfg.W, 1), Max2(r.cfg.H, 1), r.cfg.iface, r.cfg.model = "rm67162", r.cfg.rst),
-               !.d = D0, !.img = <<>>, !.stat.scn = @ + 1]
-  ELSE IF r.k # "call" THEN [s EXCEPT !.l = @ + 1]
-  ELSE
-  LET sc == s.sc  d == s.d  w0 == s.w
-      w1 == RunOps(w0, r.ops)
-      st1 == [s.stat EXCEPT !.calls = @ + 1, !.wireops = @ + Len(r.ops),
-                            !.done = IF r.i = sc.ncalls THEN @ + 1 ELSE @]
-      fault == FaultHere(sc, r)
-  IN
-  IF sc.kind = "xport" THEN
-     LET v == IF fault THEN (IF sc.cfg.iface \in {"bus8", "bus16"} THEN JudgeBus(sc, w0, w1, r) ELSE JudgeFault(sc, d, w0, w1, r))
-              ELSE IF r.name = "bus.set_value" THEN JudgeBus(sc, w0, w1, r) ELSE JudgeXport(sc, w0, w1, r)
-     IN [s EXCEPT !.l = @ + 1, !.w = w1, !.viol = @ \o v,
-                  !.stat = [st1 EXCEPT !.faults = IF fault THEN @ + 1 ELSE @]]
-  ELSE IF sc.kind = "modelinit" THEN
-     [s EXCEPT !.l = @ + 1, !.w = w1, !.stat = st1,
-               !.viol = @ \o (IF fault THEN JudgeFault(sc, d, w0, w1, r) ELSE JudgeInit(sc, w0, w1, r))]
-  ELSE IF d.skip THEN [s EXCEPT !.l = @ + 1, !.w = w1, !.stat = st1]
-  ELSE IF fault THEN
-     LET fb == FbView(w1.ctl)
-         v == JudgeFault(sc, d, w0, w1, r)
-              \o Chk(\A c \in DOMAIN fb : InWindow(sc.cfg, c), r, {"C12"}, "the failed call modified a cell outside the panel window")
-         \* a sleep/wake that failed half-way returned without its 120 ms delay: the spacing to the next sleep-in/out
-         \* command is not the driver's to guarantee any more (C13 is stated for fault-free histories)
-         w2 == IF r.name \in {"sleep", "wake"} THEN [w1 EXCEPT !.ctl.tslpU = -1] ELSE w1
-     IN [s EXCEPT !.l = @ + 1, !.w = w2, !.img = fb, !.viol = @ \o v,
-                  !.d = [d EXCEPT !.faulted = TRUE, !.slpUnknown = @ \/ r.name \in {"sleep", "wake"}],
-                  !.stat = [st1 EXCEPT !.faults = @ + 1]]
-  ELSE IF r.name = "init" THEN
-     [s EXCEPT !.l = @ + 1, !.w = w1, !.img = FbView(w1.ctl), !.viol = @ \o JudgeInit(sc, w0, w1, r), !.stat = st1,
-               !.d = [D0 EXCEPT !.alive = r.res = "ok", !.orient = Orient0(sc)]]
-  ELSE IF r.name = "test_image" THEN
-     \* C19 through a real Display: the decoded framebuffer, mapped back to logical positions, must satisfy the
-     \* predicates of the property; nothing outside the panel window may change; the exact picture is DRIFT only
-     LET fb == FbView(w1.ctl)
-         ls == LogicalSize(sc.cfg, d.orient)
-         pic == [p \in (0 .. ls[1] - 1) \X (0 .. ls[2] - 1) |->
-                   LET c == Place(sc.cfg, d.orient, p[1], p[2]) IN
-                   IF c \in DOMAIN fb THEN ClassOf(sc.cfg.colour, fb[c]) ELSE 9]
-         good == IF ls[1] >= 32 /\ ls[2] >= 32 THEN GoodPicture(pic, ls[1], ls[2]) ELSE ""
-         fr == FramingErrors(w0.ctl, w1.cmds, WordsPerPixel(w1.ctl), TRUE)
-     IN [s EXCEPT !.l = @ + 1, !.w = w1, !.img = fb, !.stat = st1,
-               !.ncmp = @ + 1, !.ndrift = IF r.res = "ok" /\ pic # TestImagePic(ls[1], ls[2]) THEN @ + 1 ELSE @,
-               !.viol = @ \o Chk(r.res = "ok", r, {"C19", "C02"}, "test image: " \o r.res \o " " \o r.pmsg \o " " \o r.ploc)
-                          \o Chk(r.res # "ok" \/ good = "", r, {"C19"}, "test image through the display: " \o good)
-                          \o Chk(r.res # "ok" \/ \A c \in DOMAIN fb : InWindow(sc.cfg, c), r, {"C19", "C02"},
-                                 "the test image modified a cell outside the panel window")
-                          \o Chk(r.res # "ok" \/ fr = "", r, {"C08"}, "framing: " \o fr)]
-  ELSE IF IsDrawing(r.name) THEN
-     LET j == JudgeDrawing(sc, d, s.img, w0, w1, r, s.rowcap)
-         img1 == IF r.res = "ok" THEN j.img ELSE FbView(w1.ctl)
-         inb == ArgsInBounds(sc, d, r)
-     IN [s EXCEPT !.l = @ + 1, !.w = w1, !.img = img1,
-                  !.viol = @ \o j.v \o JudgeAlways(sc, d, w0, w1, r),
-                  !.d = [d EXCEPT !.skip = j.skip],
-                  !.stat = [st1 EXCEPT !.painted = IF img1 # s.img THEN @ + 1 ELSE @, !.oob = IF inb THEN @ ELSE @ + 1],
-                  !.rowcap = IF sc.tag = "measure_rowcap" /\ r.name = "draw_iter" /\ Len(w1.cmds) >= 3 /\ WordsPerPixel(w1.ctl) > 0
-                             THEN w1.cmds[3].n \div WordsPerPixel(w1.ctl) ELSE @]
-  ELSE
-     LET d1 == IF r.res # "ok" THEN d
-               ELSE CASE r.name = "set_orientation" -> [d EXCEPT !.orient = [rot |-> r.args.rot, mir |-> r.args.mir], !.reoriented = TRUE]
-                      [] r.name = "sleep" -> [d EXCEPT !.sleeping = TRUE, !.slpUnknown = FALSE]
-                      [] r.name = "wake" -> [d EXCEPT !.sleeping = FALSE, !.slpUnknown = FALSE]
-                      [] OTHER -> d
-     IN [s EXCEPT !.l = @ + 1, !.w = w1, !.d = d1, !.stat = st1,
-                  !.viol = @ \o JudgeOther(sc, d, w0, w1, r) \o JudgeAlways(sc, d1, w0, w1, r)]
-
-\* DRIFT (never an alarm): on the recording interfaces the interface-level traffic of the real code is compared
-\* with what the driver layer of the specification (Driver / Batch / Clip) predicts for the same call.
-IsRec(sc) == sc.kind = "display" /\ sc.cfg.iface \in {"rec", "rec_p8", "rec_p16"}
-NoRst(ops) == SelectSeq(ops, LAMBDA op : op[1] # "rst")
-WithDrift(s1, r) ==
-  IF r.k # "call" \/ ~IsRec(s.sc) THEN s1
-  ELSE IF r.name = "init" THEN
-       LET cfg == s.sc.cfg
-           m == MadctlFromOptions(cfg, Orient0(s.sc))
-           prog == IF cfg.model \in ModelNames THEN Concrete(cfg.model, m, cfg.inv)
-                   ELSE <<<<"dly", 5000, 0>>, <<"cmd", 17, <<>>, 1>>, <<"dly", 120000, 0>>, <<"cmd", 54, <<m>>, 1>>,
-                          <<"cmd", IF cfg.inv THEN 33 ELSE 32, <<>>, 1>>, <<"cmd", 58, <<ColmodFor(cfg.colour)>>, 1>>,
-                          <<"cmd", 41, <<>>, 1>>>>
-           e == (IF cfg.rst THEN <<<<"dly", 10, 0>>>> ELSE <<<<"cmd", 1, <<>>, 1>>>>) \o prog
-           cmp == r.res = "ok" /\ ~FaultHere(s.sc, r)
-           same == NoRst(r.ops) = e
-       IN [s1 EXCEPT !.dd = IF r.res = "ok" THEN DNew(cfg, Orient0(s.sc)) ELSE [none |-> TRUE],
-                     !.ncmp = IF cmp THEN @ + 1 ELSE @,
-                     !.ndrift = IF cmp /\ ~same THEN @ + 1 ELSE @,
-                     !.drift = IF ~cmp \/ same \/ Len(@) >= 20 THEN @ ELSE Append(@, [id |-> r.id, i |-> r.i, name |-> r.name])]
-  ELSE IF "none" \in DOMAIN s.dd \/ FaultHere(s.sc, r) \/ r.name \in {"test_image", "raw"} \/ s.d.skip \/ s1.d.skip THEN s1
-  ELSE LET e == DCall(s.dd, r.name, r.args)
-           same == IF e.panic THEN r.res = "panic" ELSE r.res = "ok" /\ NoRst(r.ops) = e.ops
-       IN [s1 EXCEPT !.dd = IF r.res = "ok" THEN e.d ELSE s.dd, !.ncmp = @ + 1,
-                     !.ndrift = IF same THEN @ ELSE @ + 1,
-                     !.drift = IF same \/ Len(@) >= 20 THEN @ ELSE Append(@, [id |-> r.id, i |-> r.i, name |-> r.name])]
-
-Next == s.l <= Len(Rec) /\ s' = WithDrift(Step(Rec[s.l]), Rec[s.l])
-Spec == Init /\ [][Next]_vars
-
-\* verdicts leave TLC through this (always true) invariant, evaluated in the final state
-Final == (s.l = Len(Rec) + 1) =>
-           /\ PrintT(<<"VIOL", ToJson(s.viol)>>)
-           /\ PrintT(<<"STAT", ToJson(s.stat @@ [rowcap |-> s.rowcap, records |-> Len(Rec), driftcmp |-> s.ncmp, drift |-> s.ndrift])>>)
-           /\ PrintT(<<"DRIFT", ToJson(s.drift)>>)
-\* the whole trace was consumed
-Consumed == TLCGet("stats").diameter - 1 = Len(Rec)
-=============================================================================
